@@ -145,7 +145,7 @@ pub fn check_len<I: ExactSizeIterator>(it: &I, m: &Seq) {
 /// An optional concrete prefix, then `depth` symbolic steps over {next, next_back, nth(n), nth_back(n)[, index]} with `n`
 /// unconstrained, then a terminal operation:
 ///   mode 0: symbolic choice of {count, last, drop}
-///   mode 1: symbolic choice of {for-loop, reverse for-loop, fold, rfold} to exhaustion.
+///   mode 1: one of {for-loop, reverse for-loop, fold, rfold} to exhaustion (bits 2.. of `mode` pick it, 7 = symbolic).
 /// `index` is `Some(f)` for indexable iterators (columns): `f(&it, i)` returns the address of `it[i]`.
 /// Returns per item how many times it was yielded.
 pub fn drive<I>(mut it: I, g: Geo, prefix: u8, depth: usize, mode: u8, index: Option<fn(&I, usize) -> *const u8>) -> Hits
@@ -155,6 +155,8 @@ where
 {
     // bit 1 of `mode`: write through every yielded item
     let g = Geo { poke: mode & 2 != 0, ..g };
+    // bits 2..: which exhaustive terminal operation (0 for-loop, 1 reverse loop, 2 fold, 3 rfold; 7 = symbolic choice)
+    let xop = mode >> 2;
     let mode = mode & 1;
     let mut hits = Hits { yielded: [0u8; MAXITEMS], wrote: [0u8; MAXITEMS] };
     let mut m = Seq::new(g.count());
@@ -209,6 +211,7 @@ where
         }
     } else {
         nd::assume(t < 4);
+        let t = if xop < 4 { xop } else { t };
         if t == 0 {
             let mut k = m.lo;
             for item in it {
